@@ -36,7 +36,7 @@ RULE = (
     'references, legitimate login_redirect values and single-character mutations (insert control/space/backslash/@, case flip, '
     'percent-encode) of all of these; hosts taken from deploy_config at run time. '
     'Distinct by the string itself; non-trivial when the string is non-empty and is not a plain path. Shapes observed '
-    '(decision, model verdict, scheme class, slash form) are listed separately.'
+    '(decision, model verdict with on-/off-site mark, scheme class, generator template) are listed separately in observed_sets.shapes.'
 )
 ASSUMPTIONS = [
     'browser_destination() in this file is the WHATWG URL standard for the constructs it claims; everything else is answered "unknown" and not judged',
@@ -46,7 +46,7 @@ ASSUMPTIONS = [
 ]
 TRUSTED_BASE = ['browser_destination reference model in this file', 'vf/shims (import of auth.auth only; not on the deciding path)']
 SHARDS = {'quick': 1, 'thorough': 16}
-TIMEOUT = {'quick': 300, 'thorough': 1500}
+TIMEOUT = {'quick': 600, 'thorough': 3600}
 FORBIDDEN_STUBS = ()
 
 
@@ -475,5 +475,20 @@ def _netloc(s):
         return repr(e)
 
 
-# ---- validation record ------------------------------------------------------------------------------
-# see bottom of file after validation
+# ---- validation record ---------------------------------------------------------------------------------
+# Unchanged tree: exit 1 in both tiers, every seed 0..4, with exactly one mechanism key:
+#   non-web-scheme-with-allowed-authority   e.g. 'javascript://batch.hail.invalid/%0aalert(1)',
+#   'data://batch.hail.invalid/text/html,<script>alert(1)</script>', 'ms-msdt://monitoring.hail.invalid', 'myapp://ci.hail.invalid/open'
+#   are accepted because only urlparse(next).netloc is compared.  Genuine defect (DESIGN section 6); proposed repair:
+#   /verif/proposed_fixes/C29-non-web-scheme-with-allowed-authority.diff (scheme must be http or https; every value the
+#   repo's own flow produces - gear.auth.login_redirect: str(request.url), auth defaults: deploy_config.external_url - is an
+#   absolute http(s) URL, counter legit_flow_values_not_accepted stays 0).  Also accepted and answered 'unknown' by the model
+#   (counted, not judged): ftp:// ws:// wss:// file:// with an allowed host; the repair rejects these too.
+# Scratch worktree with the repair applied: quick and thorough, seeds 0..4: HELD.
+# Breaks applied one at a time on top of the repaired scratch tree (auth/auth/auth.py), quick tier, seed 0:
+#   own 1  `.hostname` for `.netloc`                                  caught  backslash-authority-confusion ('https://evil.com\\@batch.hail.invalid' -> evil.com)
+#   own 2  `any(netloc.endswith(d) ...)` instead of exact membership     caught  host-substring-match, backslash-authority-confusion
+#   own 3  empty netloc let through (`netloc and netloc not in ...`)     caught  backslash-authority-confusion ('https:\\\\hail.invalid'), unrelated-host-accepted ('https:///batches/..' -> host 'batches'), userinfo-authority-confusion
+#   own 4  `scheme.startswith('http')` instead of the allow-list         caught  non-web-scheme-with-allowed-authority ('httpp://...', 'httpss://...')
+#   own 5  `urlparse(unquote(next_page))`                                caught  userinfo-authority-confusion ('https://auth.hail.invalid%2f@evil.com')
+#   (DESIGN lists no break for C29: the unchanged tree already violates.)
